@@ -29,7 +29,7 @@ theorem program_refines (ops : List IterOp) (a : Arr) (it : ArrIter) (c : Cursor
   | cons op ops ih =>
     obtain ⟨s1, s2, s3, s4, s5, s6, _⟩ := Arr.iterStep_sim a it c op m hinv hs
     obtain ⟨i1, i2, i3, i5, i6⟩ := ih (a.iterStep it op m).2.1 (a.iterStep it op m).2.2.1 _ (a.iterStep it op m).2.2.2
-      s4 (by omega) s2
+      s4 s2
     simp only [Arr.iterRun, Cursor.run, List.map_cons, List.headD_cons, List.tail_cons]
     exact ⟨by rw [← i1, ← s1], i2, i3, by rw [i5, s5], by rw [i6, s6]⟩
 
@@ -180,5 +180,15 @@ theorem spec_mutations (d t : List Nat) (y x : Nat) :
     ((Cursor.mk (d ++ [y]) t false).replace x).2.2.content = d ++ [x] ++ t ∧
     (Cursor.mk (d ++ [y]) t false).index = d.length := by
   simp [Cursor.remove, Cursor.add, Cursor.replace, Cursor.content, Cursor.index, Spec.Seq.wdec]
+
+/-! ## Non-vacuity: an exactly full array (size = capacity = 3), a program with an insertion that must
+re-allocate, a removal, a replacement and the index query -/
+example :
+    let a : Arr := Arr.mk 3 3 [10, 20, 30] (fun c => 2 * c) .conf
+    let r := a.iterRun {} [.next, .add 15, .next, .remove, .index, .next, .replace 99, .next] { live := 2 }
+    a.Inv ∧ r.1.map (·.val) = [some 10, none, some 20, some 20, some 1, some 30, some 30, none] ∧
+    r.1.getLast?.map (·.st) = some (some .iterEnd) ∧ r.2.1.abs = [10, 15, 99] ∧ r.2.1.capacity = 6 ∧
+    r.2.1.Inv ∧ r.2.2.2.fault = false ∧ r.2.2.2.live = 2 := by
+  decide
 
 end CC.Properties.C07Array
